@@ -38,6 +38,7 @@ type e3 struct {
 	// edgeSucc: when set, a guard asked for at the terminator of a block is asked for on the edge to this successor
 	// (the outcome of the block's own branch test counts) - used for values flowing into a phi
 	edgeSucc *ssa.BasicBlock
+	visMemo  map[string]pathFacts
 }
 
 func nodeType(t types.Type) (named *types.Named, ok bool) {
@@ -134,10 +135,22 @@ func (e *e3) condFacts(cond ssa.Value, outcome bool, key string, f *pathFacts) {
 		// a boolean helper of the publisher that was handed this individual (the guard extracted into a predicate)
 		if cal := c.Call.StaticCallee(); cal != nil && len(cal.Blocks) > 0 && strings.HasPrefix(pkgPathOf(cal), load.PkgHTML) && cal.Signature.Results().Len() == 1 {
 			if b, isB := cal.Signature.Results().At(0).Type().Underlying().(*types.Basic); isB && b.Kind() == types.Bool {
+				matched := false
 				for i, a := range c.Call.Args {
-					if indKey(su.Strip(a)) == key && i < len(cal.Params) && e.predicateImplies(cal, i, outcome) {
-						f.byHelper = true
+					if indKey(su.Strip(a)) == key && i < len(cal.Params) {
+						matched = true
+						if e.predicateImplies(cal, i, outcome) {
+							f.byHelper = true
+						}
 					}
+				}
+				// a helper that does not get the individual (hidesLiving()): what its answer says about the mode
+				if !matched {
+					vf := e.predicateVisibility(cal, outcome)
+					f.eqShow = f.eqShow || vf.eqShow
+					f.eqPlaceholder = f.eqPlaceholder || vf.eqPlaceholder
+					f.neHide = f.neHide || vf.neHide
+					f.nePlaceholder = f.nePlaceholder || vf.nePlaceholder
 				}
 			}
 		}
@@ -301,6 +314,115 @@ func (e *e3) predicateImplies(fn *ssa.Function, idx int, outcome bool) bool {
 	walk(fn.Blocks[0], pathFacts{data: e.mode == "data"}, map[*ssa.BasicBlock]bool{})
 	e.guardMemo[mk] = ok
 	return ok
+}
+
+// predicateVisibility: the visibility facts that hold on every path on which the boolean function fn answers
+// `outcome` (intersection over the paths); no fact when fn never answers that, or the enumeration is capped.
+func (e *e3) predicateVisibility(fn *ssa.Function, outcome bool) pathFacts {
+	if e.visMemo == nil {
+		e.visMemo = map[string]pathFacts{}
+	}
+	mk := fmt.Sprintf("%s|%v", fn.String(), outcome)
+	if r, ok := e.visMemo[mk]; ok {
+		return r
+	}
+	e.visMemo[mk] = pathFacts{}
+	pathPred := map[*ssa.BasicBlock]*ssa.BasicBlock{}
+	resolve := func(v ssa.Value) ssa.Value {
+		for i := 0; i < 10; i++ {
+			ph, ok := v.(*ssa.Phi)
+			if !ok {
+				return v
+			}
+			pr := pathPred[ph.Block()]
+			moved := false
+			for j, q := range ph.Block().Preds {
+				if q == pr && j < len(ph.Edges) {
+					v, moved = ph.Edges[j], true
+					break
+				}
+			}
+			if !moved {
+				return v
+			}
+		}
+		return v
+	}
+	acc := pathFacts{eqShow: true, eqPlaceholder: true, neHide: true, nePlaceholder: true}
+	n, count, capped := 0, 0, false
+	var walk func(b *ssa.BasicBlock, f pathFacts, on map[*ssa.BasicBlock]bool)
+	walk = func(b *ssa.BasicBlock, f pathFacts, on map[*ssa.BasicBlock]bool) {
+		count++
+		if count > 20000 {
+			capped = true
+			return
+		}
+		last := b.Instrs[len(b.Instrs)-1]
+		if ret, isRet := last.(*ssa.Return); isRet {
+			if len(ret.Results) != 1 {
+				return
+			}
+			v := resolve(ret.Results[0])
+			nf := f
+			if k, isK := v.(*ssa.Const); isK && k.Value != nil && k.Value.Kind() == constant.Bool {
+				if constant.BoolVal(k.Value) != outcome {
+					return
+				}
+			} else {
+				e.condFacts(v, outcome, "-no person-", &nf)
+			}
+			n++
+			acc.eqShow = acc.eqShow && nf.eqShow
+			acc.eqPlaceholder = acc.eqPlaceholder && nf.eqPlaceholder
+			acc.neHide = acc.neHide && nf.neHide
+			acc.nePlaceholder = acc.nePlaceholder && nf.nePlaceholder
+			return
+		}
+		on[b] = true
+		defer func() { on[b] = false }()
+		if iff, isIf := last.(*ssa.If); isIf {
+			cond := iff.Cond
+			neg := false
+			for {
+				if u, isNot := cond.(*ssa.UnOp); isNot && u.Op == token.NOT {
+					cond, neg = u.X, !neg
+					continue
+				}
+				break
+			}
+			cond = resolve(cond)
+			for i, s := range b.Succs {
+				if on[s] {
+					continue
+				}
+				out := (i == 0) != neg
+				if k, isK := cond.(*ssa.Const); isK && k.Value != nil && k.Value.Kind() == constant.Bool && constant.BoolVal(k.Value) != out {
+					continue
+				}
+				nf := f
+				e.condFacts(cond, out, "-no person-", &nf)
+				old := pathPred[s]
+				pathPred[s] = b
+				walk(s, nf, on)
+				pathPred[s] = old
+			}
+			return
+		}
+		for _, s := range b.Succs {
+			if !on[s] {
+				old := pathPred[s]
+				pathPred[s] = b
+				walk(s, f, on)
+				pathPred[s] = old
+			}
+		}
+	}
+	walk(fn.Blocks[0], pathFacts{}, map[*ssa.BasicBlock]bool{})
+	if n == 0 || capped {
+		acc = pathFacts{}
+	}
+	e.visMemo[mk] = acc
+	return acc
 }
 
 // guardedAt: on every CFG path from the function entry to ins, the guard
